@@ -1,11 +1,19 @@
-"""What MANIFEST.json claims, per property (source of truth for harness/mkmanifest.py)."""
-CHECKS = {
-    'C17': dict(
-        text='Index maps: Coq theorems for every d and every q>=1 (both compositions are the identity, lengths, '
-             'rejection of non-powers of two) about the model Model/GridInd.v; the model is tied to grid.py by exact, '
-             'exhaustive correspondence over every multi-index with q*d<=8 (12 thorough) plus a malformed stream.',
-        note='Trusted: Coq kernel, vm_compute for case evaluation, the hand-written model (validated by the '
-             'correspondence), numpy ravel/unravel semantics.',
-        technique='Coq proof (induction over digits) + exhaustive model/implementation correspondence'),
-}
+"""What MANIFEST.json claims, per property: collected from the CLAIM dict of every harness/props/Cxx.py.
+A module without CLAIM (work in progress) is not claimed."""
+import glob
+import importlib
+import os
+import sys
+
+HERE = os.path.dirname(os.path.abspath(__file__))
+CHECKS = {}
+for f in sorted(glob.glob(os.path.join(HERE, 'props', 'C*.py'))):
+    pid = os.path.basename(f)[:-3]
+    try:
+        m = importlib.import_module(f'harness.props.{pid}')
+    except Exception as e:  # a broken module is simply not claimed
+        print(f'registry: cannot import {pid}: {e!r}', file=sys.stderr)
+        continue
+    if hasattr(m, 'CLAIM'):
+        CHECKS[pid] = m.CLAIM
 NOT_APPLICABLE = {}
